@@ -929,8 +929,10 @@ def _plain_raw(nodes):
     """Raw / doc / comment blocks with plain text only (see ASSUMPTIONS)."""
     out = []
     for n in nodes:
-        if n[0] == "rawblock" and n[1] in ("raw", "doc"):
+        if n[0] == "rawblock" and n[1] == "raw":
             out.append(["rawblock", n[1], "plain text", n[3]])
+        elif n[0] == "rawblock" and n[1] == "doc":
+            out.append(n)       # a doc block prints nothing: its text may mention any markup
         elif n[0] == "block" and n[1] == "comment":
             out.append(["block", "comment", "", [["text", "note"]], [], "endcomment", ""])
         elif n[0] == "block":
